@@ -35,6 +35,77 @@ func runC17(p *core.Program, r *core.Report) {
 	processedGuard(p, r, "R2", "devpkg/deepcopygen", "(*deepcopyGen).generateType")
 	c17R7(p, r)
 	generatorOrderSources(p, r, "R6", "devpkg/deepcopygen", "devpkg/deepcopygen/helper")
+	c17R8(p, r)
+}
+
+// c17R8: on-demand generation of same-package dependencies.
+//   - the 'already generated' set is keyed by the declared type: a field whose type is an
+//     instantiation G[int] names the same methods as G itself, so the key must be normalised
+//     with Origin() before it is tested and marked (cf. C13.R2);
+//   - the on-demand entry does not consult the enablement tags: the field-copy helper calls
+//     DeepCopyInto on every same-package named field ("always gen"), so refusing to render an
+//     untagged dependency leaves a call to a method that does not exist (sibling contradiction).
+func c17R8(p *core.Program, r *core.Report) {
+	const rule = "R8"
+	r.Floor(rule, 2)
+	f := p.FuncByName("devpkg/deepcopygen", "(*deepcopyGen).generateType")
+	if f == nil {
+		r.Anchor(rule, "devpkg/deepcopygen.(*deepcopyGen).generateType")
+		return
+	}
+	info := f.Info()
+	g := graph(f)
+	n := 0
+	seen := map[string]bool{}
+	ast.Inspect(f.Body, func(nd ast.Node) bool {
+		ix, ok := nd.(*ast.IndexExpr)
+		if !ok {
+			return true
+		}
+		fld := core.FieldOf(info, ix.X)
+		if fld == nil || fld.Name() != "processed" {
+			return true
+		}
+		n++
+		construct := "the 'already generated' set is keyed by the declared type at " + core.ExprStr(ix)
+		if seen[construct] {
+			return true
+		}
+		seen[construct] = true
+		good := isOriginCall(info, ix.Index)
+		if !good {
+			if v := core.VarOf(info, ix.Index); v != nil {
+				defs, fromEntry := reachingDefs(g, v, g.PointOf(ix))
+				good = len(defs) > 0 && !fromEntry
+				for _, d := range defs {
+					as, isAs := d.Node().(*ast.AssignStmt)
+					if !isAs || len(as.Rhs) != len(as.Lhs) {
+						good = false
+						continue
+					}
+					for i, l := range as.Lhs {
+						if core.VarOf(info, l) == v && !isOriginCall(info, as.Rhs[i]) {
+							good = false
+						}
+					}
+				}
+			}
+		}
+		r.Check(good, rule, f, construct, ix.Pos(), "every reaching definition of the key is an Origin() call",
+			"the set is keyed by the *types.Named as it was handed in; for a field of a generic instantiation (Box[int]) that is not the declared type Box, so the methods of Box are rendered a second time (`method Box.DeepCopy already declared`)")
+		return true
+	})
+	if n == 0 {
+		r.Anchor(rule, "index expressions on the processed set")
+	}
+	// no enablement test on the on-demand path
+	en := core.CallsTo(info, f.Body, true, core.G("pkg/gengo.IsGeneratorEnabled"))
+	pos := f.Node().Pos()
+	if len(en) > 0 {
+		pos = en[0].Pos()
+	}
+	r.Check(len(en) == 0, rule, f, "same-package dependencies are rendered whether or not they carry the tag", pos, "the on-demand entry does not consult IsGeneratorEnabled (the framework already filters the types it dispatches)",
+		"the on-demand entry returns without rendering when the dependency's own tags do not enable the generator, while the field-copy helper emits `in.F.DeepCopyInto(&out.F)` for every same-package named field: for an untagged dependency the generated code calls a method that was never generated")
 }
 
 // generatorOrderSources: the sample generators must not let map-iteration or
